@@ -540,14 +540,18 @@ pub fn run(cli: &Cli) -> Report {
         }
         let k = rv["ctx"]["alphabet"].as_u64().unwrap_or(0) as usize;
         life.acts = acts_of(&alphabets[k.min(alphabets.len() - 1)], &extra);
-        e2::replay_into(&mut rep, &life, &starts, rv);
+        let sel: Vec<St> = if th && starts.len() > 4 { if k == 0 { starts[..4].to_vec() } else { vec![starts[0].clone(), starts[4].clone()] } } else { starts.clone() };
+        e2::replay_into(&mut rep, &life, &sel, rv);
         return rep;
     }
     let depth = if th { 6 } else { 5 };
     for (k, used) in alphabets.iter().enumerate() {
         life.acts = acts_of(used, &extra);
         let name = if k == 0 { "deposit/withdrawal lifecycles over two markets".to_string() } else { format!("deposit/withdrawal lifecycles over two markets (slot alphabet {used:?})") };
-        let o = e2::explore(&mut rep, &name, &life, starts.clone(), &e2::Config { depth, max_states: 5_000_000 }, json!({"thorough": th, "alphabet": k}));
+        // thorough tier: the first alphabet starts from the states it always had, the second from the empty world and the
+        // backed-collateral state (the last start state of the C22 family); replays index into the same selection
+        let sel: Vec<St> = if th && starts.len() > 4 { if k == 0 { starts[..4].to_vec() } else { vec![starts[0].clone(), starts[4].clone()] } } else { starts.clone() };
+        let o = e2::explore(&mut rep, &name, &life, sel, &e2::Config { depth, max_states: 5_000_000 }, json!({"thorough": th, "alphabet": k}));
         for needed in ["Create:ok", "Exec:ok", "Exec:err", "Close:ok", "Close:err"] {
             if o.histogram.get(needed).copied().unwrap_or(0) == 0 {
                 rep.machinery(format!("vacuous exploration: outcome {needed} never occurred"));
